@@ -158,29 +158,31 @@ def run(ctx):
                         init[t_.id] = s.value
             acc = txt(rets[0].value)
             lb = list(lp.body)
-            adds = [s for s in lb if isinstance(s, ast.AugAssign) and isinstance(s.op, ast.Add) and txt(s.target) == acc]
+            A = {id(s_): astx.as_aug(s_) for s_ in lb}
+            adds = [A[id(s)] for s in lb if A[id(s)] is not None and isinstance(A[id(s)].op, ast.Add) and txt(A[id(s)].target) == acc]
             breaks = [s for s in lb if isinstance(s, ast.If) and any(isinstance(x, ast.Break) for x in s.body)]
             other_exits = [x for s in lb for x in ast.walk(s) if isinstance(x, (ast.Return, ast.Break))]
             if len(adds) != 1:
                 o.undecided(f"expected one `{acc} += term` in the loop", sf, lp)
                 continue
             add = adds[0]
+            add_st = add.node
             if acc not in init or astx.const_value(init[acc]) != 0:
                 o.violated(sf, sf.node, f"accumulator `{acc}` does not start at 0") if acc in init else o.undecided("accumulator init not found", sf)
             else:
-                o.holds(sf, add, f"accumulator `{acc}` starts at 0 and is returned")
+                o.holds(sf, add_st, f"accumulator `{acc}` starts at 0 and is returned")
             # index variable: the AugAssign += const on a name used in the term
-            incs = [s for s in lb if isinstance(s, ast.AugAssign) and isinstance(s.op, ast.Add) and txt(s.target) != acc and isinstance(s.target, ast.Name)]
+            incs = [A[id(s)] for s in lb if A[id(s)] is not None and isinstance(A[id(s)].op, ast.Add) and txt(A[id(s)].target) != acc and isinstance(A[id(s)].target, ast.Name)]
             if len(incs) != 1:
                 o.undecided("index increment not found", sf, lp)
                 continue
             kv = incs[0].target.id
             if astx.const_value(incs[0].value) != 1:
-                o.violated(sf, incs[0], f"index advances by {txt(incs[0].value)}: terms of the series are skipped")
+                o.violated(sf, incs[0].node, f"index advances by {txt(incs[0].value)}: terms of the series are skipped")
             elif astx.const_value(init.get(kv)) != 1:
                 o.violated(sf, sf.node, f"series index `{kv}` starts at {txt(init.get(kv)) if kv in init else '?'}; the series runs over k >= 1")
             else:
-                o.holds(sf, incs[0], f"index `{kv}` runs 1, 2, 3, ...")
+                o.holds(sf, incs[0].node, f"index `{kv}` runs 1, 2, 3, ...")
             # the term
             sc = Scope(sf.node)
             term_name = txt(add.value) if isinstance(add.value, ast.Name) else None
@@ -194,7 +196,7 @@ def run(ctx):
             env[kv] = tm.sym("K")
             zk = None
             if sname == "polylog":
-                muls = [s for s in lb if isinstance(s, ast.AugAssign) and isinstance(s.op, ast.Mult) and isinstance(s.target, ast.Name)]
+                muls = [A[id(s)] for s in lb if A[id(s)] is not None and isinstance(A[id(s)].op, ast.Mult) and isinstance(A[id(s)].target, ast.Name)]
                 if len(muls) == 1:
                     zk = muls[0].target.id
                     env[zk] = tm.sym("ZK")
@@ -202,31 +204,31 @@ def run(ctx):
             want = tm.canon(tm.Translator({"K": tm.sym("K"), "ZK": tm.sym("ZK")}).tr(ast.parse(SERIES_TERM[sname].replace("$", "__D"), mode="eval").body))
             want = tm.rename_bound(want, "__D0", "$0")
             if tt == want:
-                o.holds(sf, term_def or add, f"term = {SERIES_TERM[sname]}".replace("$0", sparams[0]))
+                o.holds(sf, term_def or add_st, f"term = {SERIES_TERM[sname]}".replace("$0", sparams[0]))
             elif tm.has_opaque(tt):
                 o.undecided(f"term {tm.show(tt)} not understood", sf, term_def or add)
             else:
-                o.violated(sf, term_def or add, f"series term is {tm.show(tt)}, expected {tm.show(want)}")
+                o.violated(sf, term_def or add_st, f"series term is {tm.show(tt)}, expected {tm.show(want)}")
             if sname == "polylog":
                 if zk is None:
                     o.violated(sf, lp, "the running power z^k is never advanced")
                 else:
-                    m = [s for s in lb if isinstance(s, ast.AugAssign) and isinstance(s.op, ast.Mult) and txt(s.target) == zk][0]
+                    m = [A[id(s)] for s in lb if A[id(s)] is not None and isinstance(A[id(s)].op, ast.Mult) and txt(A[id(s)].target) == zk][0]
                     z = sparams[1] if len(sparams) > 1 else "?"
                     okz = txt(m.value) == z and zk in init and txt(init[zk]) == z
-                    pos_ok = lb.index(m) > lb.index(term_def or add)
+                    pos_ok = lb.index(m.node) > lb.index(term_def or add_st)
                     if okz and pos_ok:
-                        o.holds(sf, m, f"`{zk}` carries {z}^k: starts at {z}, multiplied by {z} once per index step, after the term is formed")
+                        o.holds(sf, m.node, f"`{zk}` carries {z}^k: starts at {z}, multiplied by {z} once per index step, after the term is formed")
                     elif not okz:
-                        o.violated(sf, m, f"`{zk}` does not carry {z}^k (init `{txt(init.get(zk)) if zk in init else '?'}`, step `{txt(m)}`)")
+                        o.violated(sf, m.node, f"`{zk}` does not carry {z}^k (init `{txt(init.get(zk)) if zk in init else '?'}`, step `{txt(m.node)}`)")
                     else:
-                        o.violated(sf, m, f"`{zk}` is advanced before the term of the current index is formed")
+                        o.violated(sf, m.node, f"`{zk}` is advanced before the term of the current index is formed")
             # exit test after the add, only exit, tolerance
             if len(breaks) != 1 or len(other_exits) != 1:
                 o.violated(sf, lp, "the loop has no / more than one exit: it does not stop exactly when the term drops below the tolerance") if not breaks else o.undecided("several exits", sf, lp)
                 continue
             br = breaks[0]
-            if lb.index(br) < lb.index(add):
+            if lb.index(br) < lb.index(add_st):
                 o.violated(sf, br, "the exit test runs before the term is added: the last term is dropped / the first small term ends the series with nothing added")
             else:
                 o.holds(sf, br, "term is added before the exit test")
